@@ -181,6 +181,7 @@ pub proof fn lemma_enc0()
 pub proof fn lemma_free_decodes(b: Seq<u8>, o: int, size: nat, next: nat)
     requires free_at(b, o, size, next)
     ensures free_rec_ok(b, o), rec_size(b, o) == size, rec_len(b, o) == 0, free_next(b, o) == next,
+        rec_data_pos(b, o) == o + enc_len(size / 8) + 1, rec_len_pos(b, o) == o + enc_len(size / 8),
 {
     let img = free_image(size, next);
     axiom_vu64(size / 8); axiom_vu64(0); lemma_enc0();
